@@ -695,7 +695,7 @@ def correspondence(ctx):
     if not ctx.quick:
         hist += [({'leap': '', 'mode': 'ids', 'seed': 2, 'nrows': 8784}, ['H', 'W', 'E', 'D']),
                  ({'leap': 'Yes', 'mode': 'ids', 'seed': 3}, ['I', 'F14', 'B', 'W', 'M'])]
-    for _ in range(ctx.n(3, 40)):
+    for _ in range(ctx.n(3, 25)):
         lp = rng.choice(['No', 'No', 'Yes', ''])
         spec = {'leap': lp, 'mode': 'ids', 'seed': rng.randrange(1000)}
         r = rng.random()
@@ -897,6 +897,22 @@ def check_case(op, inp):
                 if got != want or type(got) is not type(want):
                     return {'required': 'cell of row %d field %d (%r) at index %d' % (r, k, rows[r][k], i),
                             'observed': repr(got), 'sig': dict(sig, what='cell_position', pit=flag)}
+        # the text fields of the header are the file's
+        hl = [l.strip() for l in text.split('\n')[:8]]
+        lt = hl[0].split(',')
+        got_txt = {'comments_1': e1.comments_1, 'comments_2': e1.comments_2,
+                   'dst': [e1.daylight_savings_start, e1.daylight_savings_end],
+                   'location_text': [e1.location.state, e1.location.country, e1.location.source, e1.location.station_id],
+                   'location_numbers': [float(e1.location.latitude), float(e1.location.longitude),
+                                        float(e1.location.time_zone), float(e1.location.elevation)]}
+        want_txt = {'comments_1': hl[5].split(',', 1)[1] if ',' in hl[5] else '',
+                    'comments_2': hl[6].split(',', 1)[1] if ',' in hl[6] else '',
+                    'dst': hl[4].split(',')[2:4], 'location_text': lt[2:6],
+                    'location_numbers': [float(x) for x in lt[6:10]]}
+        for key in want_txt:
+            if got_txt[key] != want_txt[key]:
+                return {'required': 'header field %s = %r' % (key, want_txt[key]), 'observed': repr(got_txt[key]),
+                        'sig': dict(sig, what='header_text', part=key)}
         # header data (dictionaries) survive as well
         hd2 = _header_data(e2)
         for key in hd1:
@@ -939,7 +955,8 @@ def check_case(op, inp):
             # radiation of the row stamped (m, d, h) covers the hour ending at h: wea hour h - 0.5
             m_, d_, h_ = (int(src[r][1]), int(src[r][2]), int(src[r][3])) if inp.get('stamps_valid', True) else (0, 0, 0)
             t = datetime(2016 if leap else 2017, 1, 1) + timedelta(hours=r)
-            want = [t.month, t.day, t.hour + 0.5, int(float(src[r][14])), int(float(src[r][15]))]
+            cvi = lambda x: int(x) if _is_int(x) else int(round(float(x)))     # int fields as the EPW holds them
+            want = [t.month, t.day, t.hour + 0.5, cvi(src[r][14]), cvi(src[r][15])]
             tk = wl[r].split()
             got = [int(tk[0]), int(tk[1]), float(tk[2]), int(tk[3]), int(tk[4])]
             if inp.get('ip'):
@@ -1191,7 +1208,7 @@ def _oracle_cases(ctx):
     yield 'history', {'spec': {'leap': 'No', 'mode': 'ids', 'seed': 1},
                       'ops': ['H', 'W', 'E', 'M', 'D', 'I', 'W', 'F6', 'B', 'E', 'S', 'W']}
     yield 'history', {'spec': 'los_angeles_no_leap_field.epw', 'ops': ['H', 'W', 'I', 'B', 'F14', 'W']}
-    for _ in range(3 if not big else 40):
+    for _ in range(3 if not big else 25):
         lp = rng.choice(['No', 'Yes'])
         yield 'history', {'spec': {'leap': lp, 'mode': rng.choice(['ids', 'canon']), 'seed': rng.randrange(1000)},
                           'ops': _rand_hist(rng, 5 if not big else 7)}
